@@ -135,10 +135,15 @@ Definition all_cls : list cls :=
    CAssignment; CIf; CFor; CComparison; CComment; CWhere; COver; CHaving; CCase;
    CFunction; CBegin; COperation; CValues; CCommand; CTokenList].
 
-(* on a keyword leaf every atom reads the value through an upper-casing, except `value == s` *)
+(* a text without str.isspace() characters *)
+Definition nospace (s : text) : bool := negb (existsb (fun c => cmem c space_set) s).
+
+(* on a keyword leaf every atom reads the value through Token.normalized (upper-cased, inner white space
+   collapsed) or compares value.upper() with a word that contains no white space, except `value == s` *)
 Fixpoint leaf_safe (e : pexpr) : bool :=
   match e with
   | ValueEq _ => false
+  | ValueUpperEq s => nospace s
   | Not a => leaf_safe a
   | And a b | Or a b => leaf_safe a && leaf_safe b
   | _ => true
